@@ -26,5 +26,10 @@ Fixpoint rstates (s : lfu content) (ops : list rop) : list sx :=
   | [] => []
   | o :: r => let s1 := fst (rstep s o) in sx_rstate s1 :: rstates s1 r
   end.
-Definition rt_trace_sx (c : nat) (ops : list rop) : sx :=
-  SL [sx_list sx_rout (snd (rrun (empty c) ops)); SL (rstates (empty c) ops)].
+(* kept small per case (a mismatch is rendered as text): outputs + final
+   structure in one case, the structures after steps 10j .. 10j+9 in another *)
+Definition rt_outs_sx (c : nat) (ops : list rop) : sx :=
+  let r := rrun (empty c) ops in
+  SL [sx_list sx_rout (snd r); sx_rstate (fst r)].
+Definition rt_states_sx (c : nat) (ops : list rop) (j : nat) : sx :=
+  SL (firstn 10 (skipn (10 * j) (rstates (empty c) ops))).
